@@ -40,7 +40,6 @@ type c07case struct {
 	Mode   string // args: plain | ind | spread
 	Shape  string // call-site shape / access path
 	Defer  bool   // args: the call is deferred
-	Hold   bool   // args: an argument holds a script closure other than a top-level function literal
 	FuncV  bool   // args, script calls script: the callee is a function value (called through reflect)
 	Ts     []*c07t
 	Sent   []*cval
@@ -80,6 +79,8 @@ type c07job struct {
 	cases []*c07case
 	other []refMismatch // reference-only comparisons (no Coq case)
 	wraps []*c07wrapCase
+	disps []*c07dispCase
+	sess  []*c07sessCase
 	count map[string]int
 	evals int
 	refs  int
@@ -115,6 +116,19 @@ func c07exports(extra map[string]reflect.Value) interp.Exports {
 		m[k] = v
 	}
 	return interp.Exports{"host/host": m}
+}
+
+// c07newAt: a fresh interpreter with the standard library and one more host package.
+func c07newAt(key string, syms map[string]reflect.Value) *c07run {
+	i := interp.New(interp.Options{Stdout: io.Discard, Stderr: io.Discard})
+	r := &c07run{i: i}
+	if err := i.Use(stdlib.Symbols); err != nil {
+		r.failed = "use:" + err.Error()
+	}
+	if err := i.Use(interp.Exports{key: syms}); err != nil {
+		r.failed = "use:" + err.Error()
+	}
+	return r
 }
 
 func c07new(extra map[string]reflect.Value) *c07run {
@@ -435,8 +449,10 @@ func (h *c07h) genA1(r *rng, region string) *c07A {
 		if !sig.Variadic {
 			return nil
 		}
-	case "defer-callback":
-		if len(sig.Out) > 1 || len(sig.In) == 0 {
+	case "corpus:defer-callback":
+		// witnesses of the repaired finding C07-defer-callback (abe7a69), kept as corpus cases:
+		// a deferred host call given a closure held in a variable, which the host calls back
+		if len(sig.Out) > 1 || len(sig.In) == 0 || sig.Variadic {
 			return nil
 		}
 	}
@@ -462,7 +478,7 @@ func (h *c07h) genA1(r *rng, region string) *c07A {
 		if region == "defer-spread" {
 			a.mode = "spread"
 		}
-		if a.mode == "ind" && len(last.L) == 0 && region == "" {
+		if a.mode == "ind" && len(last.L) == 0 && region != "variadic-empty" {
 			// the main stream always lists at least one variadic argument
 			last.Nil = false
 			last.L = []*cval{c07fill(vg.val(last.T.Elem, false))}
@@ -490,29 +506,22 @@ func (h *c07h) genA1(r *rng, region string) *c07A {
 	switch region {
 	case "defer-spread":
 		a.shape = "defer"
-		if a.deadlocks() {
-			return nil
-		}
-	case "defer-callback":
+	case "corpus:defer-callback":
 		a.shape = "defer"
 		a.form = "var"
-		if !a.deadlocks() || a.mode == "spread" {
+		if !a.hold() {
 			return nil
 		}
 	case "":
-		if a.shape == "defer" && (a.mode == "spread" || a.deadlocks()) {
+		if a.shape == "defer" && a.mode == "spread" {
 			return nil
 		}
 	}
 	return a
 }
 
-// deadlocks: a deferred host call one of whose arguments holds a script closure that is not a
-// top-level function literal of the call (the host function calls every function it receives).
-func (a *c07A) deadlocks() bool {
-	return a.shape == "defer" && a.hold()
-}
-
+// hold: does an argument hold a script closure other than a top-level function literal of the call?
+// (until abe7a69 a deferred host call that called such a closure back hung on the frame mutex)
 func (a *c07A) hold() bool {
 	if a.form == "hostmk" {
 		return false
@@ -672,7 +681,7 @@ func (h *c07h) runA(j *c07job, a *c07A, region string) {
 
 	// crossing 1: arguments, script -> host. Reference: Go's binding of the same actual arguments,
 	// observed natively on the manufactured values.
-	ca := &c07case{Kind: "args", Dir: "S2H", Sig: sig, Mode: a.mode, Shape: a.shape + "/" + a.form, Defer: a.shape == "defer", Hold: a.hold(),
+	ca := &c07case{Kind: "args", Dir: "S2H", Sig: sig, Mode: a.mode, Shape: a.shape + "/" + a.form, Defer: a.shape == "defer",
 		Ts: sig.In, Sent: act, Ref: c07nativeList(c07goBind(sig, a.mode, a.args), env), Region: region, Input: in}
 	mu.Lock()
 	switch {
@@ -980,6 +989,7 @@ func runC07(args []string) error {
 	seed := fs.Uint64("seed", envSeed(), "seed")
 	dump := fs.Bool("dump", false, "print every case whose observation differs from the reference")
 	show := fs.Int("show", 0, "print the script of this case id")
+	enum := fs.Bool("enum", false, "exploration: run the whole parameter space of the embedded-interface stream and print the outcomes")
 	child := fs.Int("child", -1, "internal: run only this scenario and print what the host observed")
 	fs.Parse(args)
 	if err := os.MkdirAll(*out, 0o755); err != nil {
@@ -991,15 +1001,22 @@ func runC07(args []string) error {
 	if *tier == "thorough" {
 		nA, nB, nReg = 6000, 5000, 30
 	}
-	// newRng's seeding makes the streams of seeds k and k+2 shifted copies of each other: mix the seed first
-	root := &rng{s: (*seed + 0x632BE59BD9B4E019) * 0xD1342543DE82EF95}
-	root = root.fork().fork()
+	if *enum {
+		h.enumE()
+		return nil
+	}
+	root := newRng(*seed)
 	var jobs []*c07job
 	for k := 0; k < nA; k++ {
 		a := h.genA(root.fork(), "")
 		jobs = append(jobs, &c07job{a: a, run: func(j *c07job) { h.runA(j, a, "") }})
 	}
-	for _, region := range []string{"variadic-empty", "defer-spread", "defer-callback"} {
+	// corpus: the witnesses of repaired findings run first, from fixed seeds, in the main stream
+	for k := 0; k < 3; k++ {
+		a := h.genA(newRng(uint64(7001+k)), "corpus:defer-callback")
+		jobs = append(jobs, &c07job{a: a, run: func(j *c07job) { h.runA(j, a, "") }})
+	}
+	for _, region := range []string{"variadic-empty", "defer-spread"} {
 		for k := 0; k < nReg; k++ {
 			region := region
 			a := h.genA(root.fork(), region)
@@ -1063,10 +1080,34 @@ func runC07(args []string) error {
 		}
 	}
 	for _, j := range jobs {
+		for _, c := range j.sess {
+			okAll := true
+			for _, x := range append(append([]string{}, c.impl...), c.ref...) {
+				okAll = okAll && x == "ok"
+			}
+			if !okAll {
+				bad++
+				if *dump {
+					fmt.Printf("---- sess region=%q steps=%v\n  observed: %v\n", c.region, c.input["steps"], c.input["observed"])
+				}
+			}
+		}
+	}
+	for _, j := range jobs {
+		for _, d := range j.disps {
+			if g := fmt.Sprint(d.e.gDispatch()); d.failed || d.infail || fmt.Sprint(d.impl) != g || fmt.Sprint(d.inscript) != g {
+				bad++
+				if *dump {
+					fmt.Printf("---- disp region=%q %s impl=%v failed=%v inscript=%v ref=%s\n", d.region, d.e.key(), d.impl, d.failed, d.inscript, g)
+				}
+			}
+		}
+	}
+	for _, j := range jobs {
 		for _, m := range j.other {
 			bad++
 			if *dump {
-				fmt.Printf("---- other region=%q kind=%v\n  impl: %q\n  ref:  %q\n", m.Region, m.Input.(map[string]any)["kind"], m.Impl, m.Ref)
+				fmt.Printf("---- other region=%q kind=%v %v\n  impl: %q\n  ref:  %q\n", m.Region, m.Input.(map[string]any)["kind"], m.Note, m.Impl, m.Ref)
 			}
 		}
 	}
